@@ -1,0 +1,18 @@
+//go:build verif
+
+package rhp
+
+import "go.sia.tech/core/types"
+
+// Thin wrappers that let an external verification harness drive the
+// unexported codec methods of RPC objects directly. Compiled only with
+// -tags verif.
+
+// VerifEncode exposes Object.encodeTo.
+func VerifEncode(o Object, e *types.Encoder) { o.encodeTo(e) }
+
+// VerifDecode exposes Object.decodeFrom.
+func VerifDecode(o Object, d *types.Decoder) { o.decodeFrom(d) }
+
+// VerifMaxLen exposes Object.maxLen.
+func VerifMaxLen(o Object) int { return o.maxLen() }
